@@ -5,7 +5,12 @@
    finite history over any number of threads (a list of operations tagged with thread ids IS an
    interleaving).  The dispatch clause (P7: the theorems named C17_dispatch_..., C17_static_dispatch_..., C17_tenalg_call_...)
    and initialize_backend (C17_initialize_...) are about Model/BackendDispatch.v, the layer on top of that machine:
-   what a dispatched name is bound to on each route and on which object a call through it runs. *)
+   what a dispatched name is bound to on each route and on which object a call through it runs.
+   P8 (C17_micro_atomic_generic): the micro-step reduction for ANY programs passing the boolean side condition that Corr/C17.v
+   evaluates on the programs regenerated from the current source.  P9 (C17_abort_..., C17_raising_..., C17_rejected_nameless_refuted;
+   Model/BackendAbort.v): calls that do NOT run to completion - interrupted between two attribute-level steps, or raising by
+   themselves after a write (the nameless-instance defect, known finding nameless_instance_rejected_after_write).
+   P10 (C17_default_name_tracks_shared): cls._default_backend. *)
 From Coq Require Import List Arith Bool.
 From TLV Require Import Model.Backend Model.BackendDispatch Model.BackendAbort Proofs.BackendProofs Proofs.BackendNI Proofs.BackendTwo Proofs.BackendMicro Proofs.BackendNorm Proofs.BackendDispatch Proofs.BackendAbort.
 Import ListNotations.
@@ -293,15 +298,24 @@ Proof. exact registered_same_class. Qed.
 Print Assumptions C17_registered_same_class.
 
 Theorem C17_registered_inherited : forall (H : hcfg) (c : cfg) (s : st) (mt : mtab) (u : tid) (n : fname) (v : nat) (t : tid),
-  name_of c (cur s t) <> name_of c (cur s u) ->
+  cdepth H <> 0 ->
   mt (name_of c (cur s t)) n = MInherit -> cparent H (name_of c (cur s t)) = Some (name_of c (cur s u)) ->
   which H c s (register c s mt u n v) t n = Some (cur s t, v).
 Proof. exact registered_inherited. Qed.
 Print Assumptions C17_registered_inherited.
 
+(* class hierarchies of ANY depth (cdepth H bounds the parent chains): the method registered by u runs for every thread
+   whose backend's class reaches the class of u's backend through classes that inherit the name (on_chain) ... *)
+Theorem C17_registered_inherited_deep : forall (H : hcfg) (c : cfg) (s : st) (mt : mtab) (u : tid) (n : fname) (v : nat) (t : tid),
+  on_chain (cdepth H) H mt (name_of c (cur s t)) n (name_of c (cur s u)) ->
+  which H c s (register c s mt u n v) t n = Some (cur s t, v).
+Proof. exact registered_inherited_deep. Qed.
+Print Assumptions C17_registered_inherited_deep.
+
+(* ... and for nobody else: a look-up that does not pass through that class (unrelated class, or a definition of its own
+   in the class or in an ancestor on the way) is what it was *)
 Theorem C17_registered_elsewhere_unchanged : forall (H : hcfg) (c : cfg) (s : st) (mt : mtab) (u : tid) (n : fname) (v : nat) (t : tid),
-  name_of c (cur s t) <> name_of c (cur s u) ->
-  (mt (name_of c (cur s t)) n <> MInherit \/ cparent H (name_of c (cur s t)) <> Some (name_of c (cur s u))) ->
+  ~ on_chain (cdepth H) H mt (name_of c (cur s t)) n (name_of c (cur s u)) ->
   which H c s (register c s mt u n v) t n = which H c s mt t n.
 Proof. exact registered_elsewhere_unchanged. Qed.
 Print Assumptions C17_registered_elsewhere_unchanged.
@@ -790,7 +804,7 @@ Proof. exact descriptor_before_0b04404. Qed.
    provides nothing; thread 1 registers on the stock class, thread 2 (on Obj 0) inherits, registers its own, thread 3 on
    Obj 2 (class 3) raises *)
 Example C17_registered_nonvacuous :
-  let H := {| cparent := fun cl => if Nat.eqb cl 1 then Some 0 else None |} in
+  let H := {| cparent := fun cl => if Nat.eqb cl 1 then Some 0 else if Nat.eqb cl 4 then Some 1 else None; cdepth := 2 |} in
   let mt := fun (cl : name) (_ : fname) => if Nat.eqb cl 1 then MInherit else if Nat.eqb cl 3 then MMissing else MHas 0 in
   rtrace fixed_rules H cfg0 {| r_sel := s0; r_mt := mt |}
     [RSel (Set_ 2 (SInst (Obj 0)) true); RCall 2 7; RReg 1 7 1; RCall 2 7; RCall 1 7; RReg 2 7 2; RCall 2 7; RCall 1 7;
@@ -798,6 +812,25 @@ Example C17_registered_nonvacuous :
   = [RSelObs ODone; RRan (Some (Obj 0, 0)); RNone; RRan (Some (Obj 0, 1)); RRan (Some (Named 0, 1)); RNone;
      RRan (Some (Obj 0, 2)); RRan (Some (Named 0, 1)); RRan (Some (Obj 0, 0)); RSelObs ODone; RRan None].
 Proof. vm_compute. reflexivity. Qed.
+
+(* non-vacuity of C17_registered_inherited_deep / _elsewhere_unchanged: class 4 (Obj 3) is a subclass of class 1 (Obj 0), a
+   subclass of the stock class 0; a registration on the stock class reaches Obj 3 through two levels, one on the middle
+   class then takes over for Obj 3 and leaves the stock class alone *)
+Example C17_registered_deep_nonvacuous :
+  let H := {| cparent := fun cl => if Nat.eqb cl 1 then Some 0 else if Nat.eqb cl 4 then Some 1 else None; cdepth := 2 |} in
+  let mt := fun (cl : name) (_ : fname) => if Nat.eqb cl 1 || Nat.eqb cl 4 then MInherit else MHas 0 in
+  on_chain 2 H mt 4 7 0 /\ ~ on_chain 2 H mt 0 7 1 /\
+  rtrace fixed_rules H cfg0 {| r_sel := s0; r_mt := mt |}
+    [RSel (Set_ 2 (SInst (Obj 3)) true); RCall 2 7; RReg 1 7 1; RCall 2 7; RSel (Set_ 3 (SInst (Obj 0)) true); RReg 3 7 2;
+     RCall 2 7; RCall 1 7]
+  = [RSelObs ODone; RRan (Some (Obj 3, 0)); RNone; RRan (Some (Obj 3, 1)); RSelObs ODone; RNone; RRan (Some (Obj 3, 2));
+     RRan (Some (Named 0, 1))].
+Proof.
+  cbv zeta. split; [|split].
+  - right. split; [reflexivity|]. right. split; [reflexivity|]. now left.
+  - intros [E|[E _]]; discriminate.
+  - vm_compute. reflexivity.
+Qed.
 
 (* non-vacuity of the C17_closure_metadata_... theorems: the call follows thread 1's selection, __wrapped__ does not; after
    use_dynamic_dispatch by thread 1 the class closure is re-made with Obj 0, the import-time binding and the reference
@@ -857,6 +890,14 @@ Theorem C17_abort_local_keeps_shared : forall (R : rules) (c : cfg) (b : bst) (o
   keep_flag R = true -> is_local (to_st b) o = true -> b_shared (abort R c b o k) = b_shared b.
 Proof. exact abort_local_keeps_shared. Qed.
 Print Assumptions C17_abort_local_keeps_shared.
+
+(* every thread's VIEW is atomic although the state is not: after an interruption anywhere, what ANY thread (the caller
+   included) observes is what it observed before the call or what it would observe after the whole call *)
+Theorem C17_abort_view_old_or_new : forall (R : rules) (c : cfg) (b : bst) (o : op) (k : nat) (u : tid),
+  cur (to_st (abort R c b o k)) u = cur (to_st b) u \/
+  cur (to_st (abort R c b o k)) u = cur (to_st (astep R c b (AOp o))) u.
+Proof. exact abort_view_old_or_new. Qed.
+Print Assumptions C17_abort_view_old_or_new.
 
 (* set_backend interrupted anywhere: nothing happened, or the THREAD-LOCAL flavour of the same selection, or the whole *)
 Theorem C17_abort_set_characterised : forall (R : rules) (c : cfg) (b : bst) (t : tid) (x : sel) (l : bool) (k : nat),
